@@ -1,12 +1,15 @@
-(* C01 - ZINC round trip.  Proved: whole version-3.0 grids without metadata whose cells are strings, URIs, numbers /
-   quantities, dates, times, the letter scalars, plain references or lists of those to any depth (C01_grid_roundtrip,
-   C01_grid_roundtrip_top), each kind through the reader's WHOLE scalar alternation for either version.  PARTIAL: grid and
-   column metadata, dicts, nested grids, date-times, coordinates, Bin, XStr and multi-grid documents are covered by the
-   model-implementation tie and the search (harness/props/c01.py), and by concrete computed examples here. *)
+(* C01 - ZINC round trip.  Proved on the models of the writer and the reader: THE GENERAL THEOREM for version 3.0
+   (C01_full_grid, C01_value_relation) - grids with or without grid and column metadata, any columns, any rows, every
+   kind but date-times as cell or metadata value, lists, dicts and nested grids to any depth, up to parse_grid and
+   parser.parse (C01_document), several grids per document (C01_multi_grid); date-times per kind (C01_datetime) and as
+   cells of whole grids in two-sided form (C01_full_grid_with_datetimes); version 2.0 grids without and with metadata
+   (C01_grid_2_0, C01_grid_2_0_with_metadata).  Each kind goes through the reader's WHOLE scalar alternation.
+   PARTIAL: date-times inside lists / dicts / metadata, and what a date-time text denotes (iso8601 / pytz), are covered by
+   the model-implementation tie and the search (harness/props/c01.py). *)
 From Coq Require Import String.
 From Coq Require Import List NArith Bool.
 From HS Require Import Base.Prelude Model.Value Model.Escape Model.Version Model.Json Model.ZincDump Model.ZincParse.
-From HS Require Import Proofs.EscapeP Proofs.ZincParseP Proofs.ZincDumpP Proofs.ZincNumP Proofs.ZincDateP Proofs.ZincListP Proofs.ZincGridP Proofs.ZincDictP Proofs.ZincMetaP Proofs.ZincLeavesP Proofs.ZincDocP Proofs.ZincNestP Proofs.ZincCoordP Proofs.ZincXStrP Proofs.ZincDateTimeP Proofs.ZincMultiP Proofs.ZincV2P.
+From HS Require Import Proofs.EscapeP Proofs.ZincParseP Proofs.ZincDumpP Proofs.ZincNumP Proofs.ZincDateP Proofs.ZincListP Proofs.ZincGridP Proofs.ZincDictP Proofs.ZincMetaP Proofs.ZincLeavesP Proofs.ZincDocP Proofs.ZincNestP Proofs.ZincCoordP Proofs.ZincXStrP Proofs.ZincDateTimeP Proofs.ZincMultiP Proofs.ZincV2P Proofs.ZincMeta2P Proofs.ZincRawP.
 Import ListNotations.
 Open Scope N_scope.
 
@@ -270,6 +273,82 @@ Proof.
   - exact T.
 Qed.
 
+(* VERSION 2.0 GRIDS WITH METADATA: grid metadata and column metadata (marker tags and tags with 2.0 values; distinct tag
+   names), any non-empty list of distinct column names, any rows of 2.0 cells: the writer under the pre-3.0 rules writes
+   the text, and parse_grid (version sniffing, the 2.0 alternation, the reader's version gate over metadata, column
+   metadata and cells) reads it back as exactly that grid, declared version included. *)
+Theorem C01_grid_2_0_with_metadata : forall mps cols rows rts,
+  Forall mval2 mps -> NoDup (mkeys mps) -> ~ In VERK (mkeys mps) ->
+  cols <> [] -> Forall mcol2 cols -> NoDup (map fst cols) ->
+  Forall2 (grid2_cells_ok (map fst cols)) rows rts ->
+  (forall f, zdump_grid (S (S f)) V20 (map pkv mps) (map (fun c => (fst c, map pkv (snd c))) cols)
+                        (map (fun cells => combine (map fst cols) cells) rows) = Ok (meta_text2 mps cols rts)) /\
+  zparse_grid (meta_text2 mps cols rts) = Ok (meta_grid2 mps cols rows).
+Proof. exact grid2_meta_roundtrip. Qed.
+(* the 2.0 metadata values *)
+Theorem C01_metadata_values_2_0 :
+  (forall s e, escape_str s = Ok e -> val2 (VStr s) (DQ :: e ++ [DQ])) /\
+  (forall s e, escape_uri s = Ok e -> val2 (VUri s) (BQ :: e ++ [BQ])) /\
+  (forall sg ip fp ex u, ntok_ok sg ip fp ex u -> val2 (nval sg ip fp ex u) (mant sg ip fp ex ++ upt u)) /\
+  (forall y m d, valid_date y m d = true -> val2 (VDate y m d) (iso_date y m d)) /\
+  (forall h mi s us, time_ok h mi s us -> val2 (VTime h mi s us) (iso_time h mi s us)) /\
+  val2 VNull [78] /\ val2 VRemove [82] /\ (forall b, val2 (VBool b) [if b then 84 else 70]).
+Proof. exact (conj val2_str (conj val2_uri (conj val2_number (conj val2_date (conj val2_time (conj val2_null (conj val2_remove val2_bool))))))). Qed.
+Ltac cn := (vm_compute; split; [reflexivity | repeat (constructor; try reflexivity)]).
+Example C01_grid_2_0_with_metadata_nonvacuous :
+  zparse_grid (s_ "ver:""2.0"" a b:""q""
+x c:""y"",z
+""u"",N
+") = Ok (VGrid V20 [(s_ "a", VMarker); (s_ "b", VStr (s_ "q"))] [(s_ "x", [(s_ "c", VStr (s_ "y"))]); (s_ "z", [])]
+              [[(s_ "x", VStr (s_ "u")); (s_ "z", VNull)]]).
+Proof.
+  destruct (C01_grid_2_0_with_metadata
+              [(s_ "a", VMarker, []); (s_ "b", VStr (s_ "q"), s_ """q""")]
+              [(s_ "x", [(s_ "c", VStr (s_ "y"), s_ """y""")]); (s_ "z", [])]
+              [[VStr (s_ "u"); VNull]] [[s_ """u"""; s_ "N"]]) as [_ T].
+  - constructor; [split; [cn|left; reflexivity]|].
+    constructor; [|constructor]. split; [cn|right; apply (val2_str (s_ "q") (s_ "q")); reflexivity].
+  - repeat constructor; vm_compute; intuition discriminate.
+  - vm_compute. intuition discriminate.
+  - discriminate.
+  - constructor; [|constructor; [|constructor]].
+    + split; [cn|]. split; [|repeat constructor; vm_compute; intuition discriminate].
+      constructor; [|constructor]. split; [cn|right; apply (val2_str (s_ "y") (s_ "y")); reflexivity].
+    + split; [cn|]. split; constructor.
+  - repeat constructor; vm_compute; intuition discriminate.
+  - constructor; [|constructor]. split; [reflexivity|].
+    constructor; [apply (cell2_str (s_ "u") (s_ "u")); reflexivity|]. constructor; [exact cell2_null|constructor].
+  - exact T.
+Qed.
+
+(* WHOLE 3.0 GRIDS WITH DATE-TIME CELLS: the reader model hands a date-time on as its raw ISO text and zone name (their
+   interpretation is the iso8601 / pytz oracle of the tie), so each cell is a pair (written value, value read): the value
+   itself for every kind of C01_full_grid, and (date-time, its raw text and zone) for a date-time in a named zone. *)
+Theorem C01_full_grid_with_datetimes : forall n mps cols (rows : list (list (hval * hval))) rts,
+  Forall (mv (zv n)) mps -> NoDup (mkeys mps) -> ~ In VERK (mkeys mps) ->
+  cols <> [] -> Forall (mc (zv n)) cols -> NoDup (map fst cols) ->
+  Forall2 (fun cells ts => length cells = length (map fst cols) /\ Forall2 (cellwr n) cells ts) rows rts ->
+  (forall f, zdump_grid (S (S (2 * n + f))) V30 (map pkv mps) (map (fun c => (fst c, map pkv (snd c))) cols)
+                        (map (fun cells => combine (map fst cols) (map fst cells)) rows) = Ok (meta_text mps cols rts)) /\
+  ((2 * n <= length (meta_text mps cols rts))%nat ->
+   zparse_grid (meta_text mps cols rts) = Ok (meta_grid mps cols (map (map snd) rows))).
+Proof. exact full_grid_datetimes. Qed.
+Theorem C01_datetime_cells : forall n,
+  (forall v t, cellv n v t -> cellwr n (v, v) t) /\
+  (forall y m d h mi s us off zn sg hh mm, iso_offset off = off_text sg hh mm -> dt_ok y m d h mi s us sg hh mm -> tzname_ok zn ->
+     cellwr n (VDateTime y m d h mi s us off (ZName zn), VDateTimeRaw (iso_datetime y m d h mi s us off) (Some zn))
+              (iso_datetime y m d h mi s us off ++ 32 :: zn)).
+Proof. intro n. split; [apply cellwr_same|apply cellwr_datetime]. Qed.
+Example C01_datetime_cell_nonvacuous :
+  cellwr 0 (VDateTime 2020 2 29 23 59 59 0 19800 (ZName (s_ "Kolkata")), VDateTimeRaw (s_ "2020-02-29T23:59:59+05:30") (Some (s_ "Kolkata")))
+           (s_ "2020-02-29T23:59:59+05:30 Kolkata").
+Proof.
+  apply (cellwr_datetime 0 2020 2 29 23 59 59 0 19800 (s_ "Kolkata") 43 5 30).
+  - vm_compute. reflexivity.
+  - repeat split; try reflexivity; try (left; reflexivity); vm_compute; try discriminate; try reflexivity.
+  - right. cbn. repeat split; try reflexivity; try discriminate; repeat constructor.
+Qed.
+
 (* SEVERAL GRIDS IN ONE DOCUMENT: the writer joins the grid texts with a line feed, so that an empty line separates them;
    parser.parse cuts the text there again and reads the grids in order.  For grid texts that are non-empty lines ended by
    one line feed each (body_ok), not starting with a blank: if each grid is written as its text and each text is read as
@@ -465,6 +544,10 @@ Print Assumptions C01_grid_with_metadata.
 Print Assumptions C01_datetime.
 Print Assumptions C01_grid_2_0.
 Print Assumptions C01_leaves_2_0.
+Print Assumptions C01_full_grid_with_datetimes.
+Print Assumptions C01_datetime_cells.
+Print Assumptions C01_grid_2_0_with_metadata.
+Print Assumptions C01_metadata_values_2_0.
 Print Assumptions C01_multi_grid.
 Print Assumptions C01_document.
 Print Assumptions C01_more_leaves.
